@@ -27,6 +27,11 @@ def expectedJsonObs (tmo : Nat) (es : List Entry) : String :=
   let (c, s) := multisetText (expectedEntries tmo es)
   "run=- calls=" ++ c ++ " samples=" ++ s
 
+/-- grpc/json entries fired by hand: entry `k` by instance `sched[k]`; which instance fires an entry (and through
+which connection) makes no difference to what the entry must produce -/
+def expectedJsonSched (tmo : Nat) (sched : List Nat) (es : List Entry) : List (Nat × Outcome) :=
+  (sched.zip es).map fun (g, e) => (g, shootEntry tmo e)
+
 /-! ### scenarios -/
 
 /-- the call a step must make given its variables: templates of the DEFINITION rendered with these variables -/
@@ -48,22 +53,28 @@ def specStep (c : Cfg) (scn : String) (cd : CallDef) (vars : Vars Char) : Outcom
         else none
       ({ calls := [callText m msg (mdText md) c.tmo], samples := [sampleText tag code] }, true, ret)
 
+/-- variables of a step and the iterator positions after its preprocessor: `u` is the next user of the iterator the
+call draws from (if the call has a preprocessor), `A`/`I` what the shot's auth step returned, `G` the global constant -/
+def stepVars (c : Cfg) (cd : CallDef) (iters : List (String × Nat)) (sv : ShotVars) : Vars Char × List (String × Nat) :=
+  let owner := iterOwner c cd
+  let drawn := (assocGet iters owner).getD 0
+  let ui := if cd.pre then (c.users.getD (drawn % c.users.length) "", assocSet iters owner (drawn + 1)) else ("", iters)
+  ([(vU, ui.1.toList), (vA, (sv.a.getD "").toList), (vI, (sv.i.getD "").toList), (vG, c.g.toList)], ui.2)
+
+/-- the per-shot variables after a step: the step named `auth` (re)defines token and user id -/
+def svNext (cd : CallDef) (ret : Option (String × String)) (sv : ShotVars) : ShotVars :=
+  if cd.name == "auth" then (match ret with | some (a, i) => { a := some a, i := some i } | none => { a := none, i := none }) else sv
+
 /-- one scenario shot: steps in order, the call's iterator advanced by every step with a preprocessor; a failing step
 ends the shot. Returns the outcome and the iterator positions afterwards; `none` = outside the modelled fragment. -/
 def specSteps (c : Cfg) (scn : String) : List CallDef → List (String × Nat) → ShotVars → Outcome → Option (Outcome × List (String × Nat))
   | [], iters, _, acc => some (acc, iters)
   | cd :: rest, iters, sv, acc =>
     if (cd.pre && c.users.isEmpty) || needsMissing cd sv then none else
-    let owner := iterOwner c cd
-    let drawn := (assocGet iters owner).getD 0
-    let (u, drawn') := if cd.pre then (c.users.getD (drawn % c.users.length) "", assocSet iters owner (drawn + 1)) else ("", iters)
-    let vars : Vars Char := [(vU, u.toList), (vA, (sv.a.getD "").toList), (vI, (sv.i.getD "").toList), (vG, c.g.toList)]
-    let (o, ok, ret) := specStep c scn cd vars
-    let acc' : Outcome := { calls := acc.calls ++ o.calls, samples := acc.samples ++ o.samples }
-    if ok then
-      let sv' : ShotVars := if cd.name == "auth" then (match ret with | some (a, i) => { a := some a, i := some i } | none => { a := none, i := none }) else sv
-      specSteps c scn rest drawn' sv' acc'
-    else some (acc', drawn')
+    let vi := stepVars c cd iters sv
+    let r := specStep c scn cd vi.1
+    let acc' : Outcome := { calls := acc.calls ++ r.1.calls, samples := acc.samples ++ r.1.samples }
+    if r.2.1 then specSteps c scn rest vi.2 (svNext cd r.2.2 sv) acc' else some (acc', vi.2)
 
 /-- expected trace of shots fired one at a time by the guns `sched` -/
 def expectedSched (c : Cfg) : List Nat → Nat → List (String × Nat) → List (Nat × Outcome) → Option (List (Nat × Outcome))
